@@ -2,7 +2,7 @@
 
 `c12 <ev>;<ev>;…`  with  `ev = ph,name,pid,ts,dur,ok`  (name percent-encoded as by `lib.core.enc`,
 `ts`/`dur` exact rationals, `ok` ∈ {0,1}: args carry TS1..TS5); the empty stream is `-`.
-Answer: `ok S=<row>;… A=<arow>;…` with `row = pid,name,calls,total,mean,median,min,max,share` and
+Answer: `ok S=<row>;… A=<arow>;…` with `row = pid,name,calls,total,mean,median,min,max,share,var` and
 `arow = pid,total,elapsed,start,end,active`, or `err:keyerror` / `err:assert`.
 `c12mask <name>` answers the masked name and whether the name is a kernel name. -/
 import AiuVerif.Basic
@@ -49,7 +49,7 @@ def parseEv (s : String) : Option SEv :=
 
 def showRow (r : Row) : String :=
   joinWith "," [toString r.pid, enc r.name, toString r.calls, showRat r.total, showRat r.mean,
-    showRat r.median, showRat r.min, showRat r.max, showRat r.share]
+    showRat r.median, showRat r.min, showRat r.max, showRat r.share, showRat r.var]
 
 def showARow (r : ARow) : String :=
   joinWith "," [toString r.pid, showRat r.total, showRat r.elapsed, showRat r.start, showRat r.stop,
